@@ -15,10 +15,11 @@ use std::io::{BufRead, Write};
 use crate::enc_common::*;
 use poulpy_core::{
     EncryptionLayout, GGLWEEncryptSk, GGLWEToGGSWKeyEncryptSk, GGSWEncryptSk, GLWEAutomorphismKeyEncryptSk, GLWEEncryptSk,
-    GLWEPublicKeyGenerate, GLWESwitchingKeyEncryptSk, GLWETensorKeyEncryptSk, LWEEncryptSk,
+    GLWEEncryptPk, GLWEPublicKeyGenerate, GLWESwitchingKeyEncryptSk, GLWETensorKeyEncryptSk, LWEEncryptSk,
     layouts::{
         Base2K, Degree, Dnum, Dsize, GGLWE, GGLWELayout, GGLWEToGGSWKey, GGLWEToRef, GGSW, GGSWLayout, GLWE, GLWEAutomorphismKey,
-        GLWELayout, GLWEPlaintext, GLWEPublicKey, GLWESecret, GLWESecretPreparedFactory, GLWESwitchingKey, GLWETensorKey, GLWEToRef,
+        GLWELayout, GLWEPlaintext, GLWEPublicKey, GLWEPublicKeyPreparedFactory, GLWESecret, GLWESecretPreparedFactory, GLWESwitchingKey, GLWETensorKey,
+        GLWEToMut, GLWEToRef,
         LWE, LWELayout, LWEPlaintext, LWESecret, Rank, TorusPrecision,
     },
 };
@@ -190,6 +191,23 @@ macro_rules! rnd_backend {
                     let mut pk = GLWEPublicKey::alloc_from_infos(&glwe_layout);
                     module.glwe_public_key_generate(&mut pk, &skp, &enc, &mut xe, &mut xa);
                     cells.push(cell_of(&pk.to_ref(), usize::MAX));
+                }
+                "pkenc" => {
+                    // public-key encryption of zero under a public key whose data is all zero: every column of the
+                    // ciphertext is then exactly one fresh error polynomial (u * 0 + e_j); the phase is read with a
+                    // zero secret, i.e. the body column alone
+                    let enc = EncryptionLayout::new(glwe_layout, noise).unwrap();
+                    let mut pk = GLWEPublicKey::alloc_from_infos(&glwe_layout);
+                    module.glwe_public_key_generate(&mut pk, &skp, &enc, &mut xe, &mut xa);
+                    pk.to_mut().data_mut().raw_mut().iter_mut().for_each(|x| *x = 0);
+                    let mut pkp = module.glwe_public_key_prepared_alloc_from_infos(&glwe_layout);
+                    module.glwe_public_key_prepare(&mut pkp, &pk);
+                    let mut ct = GLWE::alloc_from_infos(&glwe_layout);
+                    let pt = GLWEPlaintext::alloc(deg, bk, tk);
+                    let mut xu = Source::new(seed32(sxs ^ 0x5555));
+                    module.glwe_encrypt_pk(&mut ct, &pt, &pkp, &enc, &mut xu, &mut xe, scratch.borrow());
+                    cells.push(cell_of(&ct.to_ref(), usize::MAX));
+                    return (cells, (0..rank).map(|_| vec![0i64; n]).collect());
                 }
                 "gglwe" => {
                     let enc = EncryptionLayout::new(gglwe_layout, noise).unwrap();
